@@ -16,7 +16,7 @@ META = {
     "shards": {"quick": 8, "thorough": 4},
     "bounds": {
         "quick": "textbook example (Seth/Agrawal), F-shape, F-unit K<=5, c17, 30 random DAGs (<=12 gates); super-circuit form for every single-output restriction of each member",
-        "thorough": "same + 300 random DAGs + 40 with 24 gates, 8 hash seeds",
+        "thorough": "same + every circuit with 2 inputs and <=2 gates (1078) + 300 random DAGs + 40 with 24 gates, 8 hash seeds",
     },
     "outside": ["circuits with blackboxes", "circuits outside the families"],
     "assumptions": ["sem.py gate table", "harness-side substitution of supergates into the super-circuit (C06.ref_fill)", "z3 sound"],
@@ -36,6 +36,7 @@ def all_cases(ctx):
     if not ctx.quick:
         import random
         cs += [(("rand24", ctx.seed, i), F.rand_dag(random.Random(f"c17-24-{ctx.seed}-{i}"), n_in=5, n_gates=24, max_arity=3, name=f"r24_{i}")) for i in range(40)]
+        cs += F.f_small(2)
     cs.append((("lib", "c17"), "lib:c17"))
     return cs
 
